@@ -18,7 +18,8 @@ RULE = ("files built from all ordered pairs (and a slice of triples) of 25 site 
         "non-ASCII+astral text left of the call, tabs, helper-call nesting, `;`-joined, trailing comment) x approved sets; "
         "real-plugin core: 10 import-block shapes x {HasRepr, external} insertion, newline variants LF/CRLF/CR, formatter-clean "
         "files, format-command; non-trivial = some approved change really altered the file and the skeleton oracle was "
-        "evaluated; distinct = (sites, style, approved set, file variant)")
+        "evaluated; distinct = (sites, style, approved set, file variant)"
+        "; plus unencodable values in single-byte encoded files and files reached through symbolic links (real sessions)")
 ASSUMPTIONS = ["black 26.5.1 default mode decides 'formatter-clean' on the harness side", "snapshot calls are spelled `snapshot(`"]
 TASK_TIMEOUT = 900
 CATS = ("create", "fix", "trim", "update")
